@@ -70,6 +70,12 @@ MARK_OBLIGATIONS = [
     "JanetModel.Props.C06.queued_value_survives_collection",
     "JanetModel.Props.C06.short_walk_hands_out_freed_value",
 ]
+# simulation list model <-> JanetQueue ring machine for whole histories (Ev/Refine*.lean); the ring replay runs in the
+# driver after every step and its head/tail/capacity are part of every logged state (` g=h/t/c`)
+REFINE_OBLIGATIONS = [
+    "JanetModel.Props.C06.items_are_ring_contents",
+    "JanetModel.Props.C06.world_items_never_dangling",
+]
 ENV = dict(os.environ, ASAN_OPTIONS="detect_leaks=0:abort_on_error=0", UBSAN_OPTIONS="print_stacktrace=1")
 NPROC = int(os.environ.get("VERIF_JOBS", "16"))
 LAST_STDOUT_TAIL = {}
@@ -423,6 +429,7 @@ def run(ctx, only=None):
     b += ctx.obligations("JanetModel.Ev.SourceObligations", SOURCE_OBLIGATIONS)
     b += ctx.obligations("JanetModel.Ev.SourceChecks", SOURCE_CHECKS)
     b += ctx.obligations("JanetModel.Ev.MarkSource", MARK_OBLIGATIONS)
+    b += ctx.obligations("JanetModel.Ev.RefineSource", REFINE_OBLIGATIONS)
     broken += b
     if b:
         ctx.say("broken obligations: %s" % "; ".join(x[:160] for x in b[:4]))
